@@ -59,6 +59,37 @@ def monitor_chains(ctx, infile, implfile):
     return len(sigs)
 
 
+SEC = 1000000000
+
+
+def rl_next(cfg, state, now):
+    """Reading of the property text for one login of a browser with a valid session.
+    state = (count, time of the last counted attempt or None). "The counter lapses after the window": Max-Age counts
+    whole seconds, so the counter must still be there before `window` has passed since the last counted attempt,
+    must be gone once the window rounded up to a whole second has passed, and may be either in between (< 1 s).
+    Returns the admissible (status, next state) pairs."""
+    count, last = state
+    branches = []
+    if last is None:
+        branches.append(0)
+    else:
+        elapsed = now - last
+        ceil_w = -(-cfg.window // SEC) * SEC
+        if elapsed < cfg.window:
+            branches.append(count)
+        elif elapsed >= ceil_w:
+            branches.append(0)
+        else:
+            branches += [count, 0]
+    out = []
+    for c in branches:
+        if c >= cfg.logins:
+            out.append((429, (c, last)))        # refused, nothing counted, window not restarted
+        else:
+            out.append((302, (c + 1, now)))     # counted, window restarted
+    return out
+
+
 def monitor_ratelimit(ctx, infile, implfile):
     """From the property text: with a valid session, login attempts within the window count; the (logins+1)-th gets 429;
     the counter lapses `window` after the last counted attempt; without session / disabled: never 429."""
@@ -73,7 +104,7 @@ def monitor_ratelimit(ctx, infile, implfile):
             cfg = sc.cfg
             res = ck.parse_output(lo, sc)
             has_session = False
-            count, last = 0, None
+            states = {(0, None)}    # states the property allows after the observed prefix
             now = 0
             history = []
             for it, r in zip(sc.items, res):
@@ -91,29 +122,25 @@ def monitor_ratelimit(ctx, infile, implfile):
                     if st == 429:
                         ctx.violation("c17-ratelimit-unexpected-429", "429 although the rate limit is disabled or the browser has no session", case)
                     continue
-                if last is not None and now - last >= cfg.window:
-                    count = 0
-                expect = 429 if count >= cfg.logins else 302
-                if expect == 302:
-                    count += 1
-                    last = now
-                sigs.add((cfg.logins, cfg.window, expect, count))
-                if st != expect:
+                allowed = [x for s0 in states for x in rl_next(cfg, s0, now)]
+                sigs.add((cfg.logins, cfg.window, tuple(sorted({a for a, _ in allowed})), st))
+                nxt = {s1 for a, s1 in allowed if a == st}
+                if not nxt:
                     key = "c17-ratelimit-count"
-                    if cfg.window % 1000000000 != 0:
+                    if cfg.window % SEC != 0:
                         key = "c17-ratelimit-window-truncated"
-                    ctx.violation(key, "login rate limit: expected %d within the configured window semantics, got %d" % (expect, st), case)
+                    case["admissible_status"] = sorted({a for a, _ in allowed})
+                    ctx.violation(key, "login rate limit: got %d, the configured limit and window admit only %s here"
+                                  % (st, sorted({a for a, _ in allowed})), case)
                     # resynchronise with the implementation so that one deviation is reported once
-                    if st == 302:
-                        count, last = count + 1, now
-                    else:
-                        count = cfg.logins
+                    nxt = {(1, now)} if st == 302 else {(cfg.logins, now)}
+                states = nxt
     return len(sigs)
 
 
 def run(ctx):
     pre = ctx.path("retry")
-    out, dt = vf.run_driver(["retry", "-out", pre, "-seed", str(ctx.seed), "-tier", ctx.tier])
+    out, dt = vf.run_driver(["retry", "-out", pre, "-seed", str(ctx.seed), "-tier", ctx.tier] + ck.driver_flags())
     ctx.timings["retry"] = round(dt, 2)
     ctx.extra["driver_counts"] = [l for l in out.split("\n") if l.startswith("retry: ")]
     ctx.correspondence("retry: respondError on arbitrary retry-cookie values, browser-followed redirect chains, rate-limit windows on the fake clock "
@@ -138,5 +165,7 @@ def run(ctx):
         "failure causes that can be injected through the router: provider refusing the pushed authorization request (login), missing login cookie, bad state, "
         "provider error at the callback, request on a host without ingress; store failures at logout are not injected",
         "a browser that keeps cookies = net/http/cookiejar semantics; hand-edited negative counters are outside the property (bounded by |n|+3, proved)",
-        "time.Duration.Seconds() is modelled as truncating integer division (exact for windows below 2^22 s)",
+        "the logincount Max-Age is modelled with integer arithmetic on nanoseconds (truncation, or ceiling with code flag ratelimit_ceil) instead of float64 seconds: exact for windows below 2^22 s",
+        "Max-Age counts whole seconds: the monitor requires the counter to survive until the window has passed and to be gone once the window rounded up to a whole second has passed; in between (< 1 s) both answers are admissible",
+        "code variants followed by the model: lib/code_flags.json ingress_segment_prefix, ratelimit_ceil (passed to the drivers as -seg-prefix / -rl-ceil and to the model with every configuration)",
     ]
